@@ -127,7 +127,7 @@ func (s *scriptSrv) readCommand() (*sCmd, bool) {
 		start := len(raw)
 		raw = append(raw, line...)
 		size, nonSync, binary, hdrLen, isLit := literalSuffix(line)
-		if !isLit || inQuotedAtEnd(raw) {
+		if !isLit || inQuotedAtEnd(line) { // (only the text since the last literal payload: payloads may contain quotes)
 			break
 		}
 		ev := srvLitEvent{Tag: tag, Size: size, NonSync: nonSync, HdrEnd: len(s.all) - len(s.buf)}
